@@ -728,7 +728,7 @@ func (e *gEngine) analyse(f *ssa.Function, args []lat, depth int) *fnAnalysis {
 					// a slice that is advanced inside a loop (p = p[n:]) eventually becomes short:
 					// keeping "oversized" there would make the loop endless in the abstract and hide
 					// everything after it
-					if _, loopCarried := x.X.(*ssa.Phi); loopCarried {
+					if loopCarriedValue(x.X, 3) {
 						l = latTop
 					}
 				}
@@ -1236,6 +1236,15 @@ func binop(x *ssa.BinOp, a, b lat) lat {
 			return latTop
 		}
 		big := a.k == kBigInt // ω on the left
+		// a loop counter eventually reaches any length: comparing it with ω must stay undecided, or
+		// "for i < len(x)" over an oversized x never terminates in the abstract and hides what follows
+		other := x.Y
+		if !big {
+			other = x.X
+		}
+		if isCmp(op) && loopCarriedValue(other, 0) {
+			return latTop
+		}
 		switch op {
 		case token.EQL:
 			return latFalse
@@ -1468,4 +1477,28 @@ func (p *Program) dynamicCallees(f *ssa.Function, site ssa.CallInstruction) []*s
 	}
 	sort.Slice(out, func(i, j int) bool { return out[i].String() < out[j].String() })
 	return out
+}
+
+// loopCarriedValue: v is a phi, or simple arithmetic / a conversion of one.
+func loopCarriedValue(v ssa.Value, depth int) bool {
+	if depth > 3 {
+		return false
+	}
+	switch x := v.(type) {
+	case *ssa.Phi:
+		// a phi of a loop header: some predecessor is dominated by the header (back edge)
+		for _, pr := range x.Block().Preds {
+			if x.Block().Dominates(pr) {
+				return true
+			}
+		}
+		return false
+	case *ssa.BinOp:
+		return loopCarriedValue(x.X, depth+1) || loopCarriedValue(x.Y, depth+1)
+	case *ssa.Convert:
+		return loopCarriedValue(x.X, depth+1)
+	case *ssa.ChangeType:
+		return loopCarriedValue(x.X, depth+1)
+	}
+	return false
 }
